@@ -335,7 +335,7 @@ func main() {
 					return
 				}
 				S := w0.Size()
-				alpha := wops.Alphabet(S)
+				alpha := append(wops.Alphabet(S), wops.Op{Kind: "ResetOp-if-failed"})
 				var rec func(h []wops.Op)
 				rec = func(h []wops.Op) {
 					if len(h) > 0 {
